@@ -137,7 +137,9 @@ class World:
 
         if queue_scenario:
             with_humans = False
-            n_stn = (1, 1)
+            # (now and then two such stations, so that vehicles of one queue are updated between the
+            #  vehicles of the other)
+            n_stn = (1, 1) if rng.random() < 0.6 else (2, 2)
         if base_scenario:
             # contention for the plugs behind a base: one station with one plug of one type, one base at the
             # same place served by it with room for everybody, every vehicle standing there
@@ -199,6 +201,8 @@ class World:
             if queue_scenario:
                 # (a few arrive nearly empty and may run dry while waiting)
                 soc = rng.uniform(0.3, 0.9) if rng.random() < 0.8 else rng.uniform(0.001, 0.006)
+                if rng.random() < 0.12:
+                    soc = 1.0       # a full vehicle in a queue: its turn to charge fails every step
             if with_humans and rng.random() < 0.3:
                 attr = HumanDriverAttributes(vid, rng.choice(["sched_on", "sched_off"]), rng.choice(self.base_ids), rng.random() < 0.3)
                 driver = HumanAvailable(attr) if rng.random() < 0.6 else HumanUnavailable(attr)
@@ -206,7 +210,7 @@ class World:
                 driver = AutonomousAvailable(AutonomousDriverAttributes(vid))
             pos = self.net.position_from_geoid(rng.choice(self.cells))
             if queue_scenario and rng.random() < 0.85:
-                pos = stations[0].position
+                pos = stations[rng.randrange(len(stations))].position
             if base_scenario and rng.random() < 0.9:
                 pos = bases[0].position
                 soc = rng.uniform(0.3, 0.9)
